@@ -590,4 +590,274 @@ Proof.
   - cbn. split; [exact R1|]. split; [exact Wi|]. intros _. split; [exact S1|reflexivity].
 Qed.
 
+
+(* ------------------------------------------------------------------------------------------ *)
+(* receive_all over a byte buffer: invariant I while more telegrams follow, J after the last    *)
+
+Definition wf_tel (t : telegram) : Prop :=
+  match t with
+  | TData h _ => wf_header h
+  | TToken da sa => 0 <= da < 256 /\ 0 <= sa < 256
+  | TShortConf => True
+  end.
+
+Lemma decode_wf_tel buf t k : all_bytes buf -> decode buf = Ok (Accept t k) -> wf_tel t.
+Proof.
+  intros Hb D. destruct t as [h pdu|da sa|]; cbn.
+  - apply (accept_criterion buf h pdu k Hb D).
+  - apply decode_view', view_accept_token in D. destruct D as (_ & tl & ->).
+    pose proof (Forall_inv (Forall_inv_tail Hb)) as B1.
+    pose proof (Forall_inv (Forall_inv_tail (Forall_inv_tail Hb))) as B2.
+    unfold is_byte in *. lia.
+  - exact I.
+Qed.
+
+Lemma receive_all_wp {S R : Type} (cb : S -> telegram -> bool -> res (S * R)) (I J : S -> Prop) :
+  (forall s t, I s -> wf_tel t -> wp (cb s t false) (fun x => I (fst x))) ->
+  (forall s t, I s -> wf_tel t -> wp (cb s t true) (fun x => J (fst x))) ->
+  (forall s, I s -> J s) ->
+  forall fuel buf s, (length buf < fuel)%nat -> all_bytes buf -> I s ->
+  wp (receive_all cb fuel s buf) (fun x => J (fst (fst x)) /\ all_bytes (snd (fst x))).
+Proof.
+  intros Hf Ht HIJ. induction fuel as [|fuel IH]; intros buf s Hl Hb Hi; [lia|].
+  cbn [receive_all]. destruct (decode_total buf) as [d D]. rewrite D. cbn [bind].
+  destruct d as [ | |t k].
+  - cbn. split; [apply HIJ, Hi|exact Hb].
+  - cbn. split; [apply HIJ, Hi|constructor].
+  - pose proof (decode_wf_tel buf t k Hb D) as Wt.
+    pose proof (decode_accept_bounds _ _ _ D) as Bk.
+    destruct (Nat.eqb k (length buf)).
+    + eapply wp_bind; [apply Ht; assumption|]. intros [s' r] Hj. cbn in *.
+      split; [exact Hj|apply all_bytes_skipn, Hb].
+    + eapply wp_bind; [apply Hf; assumption|]. intros [s' r] Hi'. cbn [fst] in Hi'.
+      apply IH; [rewrite skipn_length; lia|apply all_bytes_skipn, Hb|exact Hi'].
+Qed.
+
+(* ------------------------------------------------------------------------------------------ *)
+(* do_listen_token                                                                              *)
+
+Lemma fdl_new_rep p : builder_valid p ->
+  exists f0, fdl_new p = Ok f0 /\ Rep n f0 /\ f_conn f0 = ConnOffline /\ f_state f0 = Offline /\ f_p f0 = p.
+Proof.
+  intros B. pose proof (bv_ranges _ B) as Hr. unfold fdl_new.
+  destruct (Z.leb_spec (p_address p) 127); [|lia]. destruct (Z.leb_spec (p_hsa p) 126); [|lia]. cbn [negb].
+  destruct (ring_new_ring_ok (p_address p)) as [r [E Rr]]; [lia|]. rewrite E. cbn [bind].
+  eexists. split; [reflexivity|]. split; [|cbn; tauto].
+  constructor; cbn; try assumption; try discriminate; try exact I.
+  - lia.
+  - unfold time_ok. lia.
+  - destruct n; [right; reflexivity|left; lia].
+Qed.
+
+Definition I_listen (s : fdl * W) : Prop :=
+  Rep n (fst s) /\ Winv (snd s) /\ (f_conn (fst s) = ConnOffline \/ kind_of (f_state (fst s)) = KListenToken).
+
+Lemma listen_token_telegram_wp now s t il : time_ok now -> I_listen s -> wf_tel t ->
+  wp (listen_token_telegram A now s t il) (fun x => I_listen (fst x)).
+Proof.
+  intros Tn (R & Wi & Hk) Wt. destruct s as [f w]. cbn [fst snd] in *. unfold listen_token_telegram.
+  destruct (mark_rx_rep n f now R Tn) as (R1 & S1).
+  assert (Hk1 : f_conn (mark_rx f now) = ConnOffline \/ kind_of (f_state (mark_rx f now)) = KListenToken)
+    by (rewrite (sb_conn _ _ S1), (sb_state _ _ S1); exact Hk).
+  set (f1 := mark_rx f now) in *. clearbody f1.
+  pose proof (Rep_ts n f1 R1) as Hts.
+  destruct (f_conn f1) eqn:Ec.
+  - cbn. split; [exact R1|]. split; [apply Winv_note, Wi|left; exact Ec].
+  - exfalso. pose proof (rep_conn _ _ R1) as C. rewrite Ec in C. destruct (f_state f1); cbn in C; congruence.
+  - destruct Hk1 as [Hk1|Hk1]; [discriminate Hk1|].
+    destruct (f_state f1) as [| |sr cc| | | | | | |] eqn:Hs; try discriminate Hk1.
+    pose proof (rep_st _ _ R1) as St. rewrite Hs in St. cbn in St. destruct St as (Hsr & Hcc).
+    destruct (opt_eqb (source_address t) (Some (ts f1))).
+    + cbn [get_listen_token bind]. unfold u8_add. destruct (Z.leb_spec (cc + 1) 255); [|lia]. cbn [bind].
+      destruct (cc + 1 =? listen_collision_tolerated) eqn:Ecc.
+      * cbn. split; [|split; [apply Winv_note, Wi|right; reflexivity]].
+        apply Rep_set_st; [exact R1|exact Ec|]. cbn. split; [exact Hsr|].
+        apply Z.eqb_eq in Ecc. unfold listen_collision_tolerated in Ecc. lia.
+      * unfold set_offline, set_state. cbn [f_p set_st].
+        destruct (fdl_new_rep (f_p f1) (rep_p _ _ R1)) as [f0 (E0 & R0 & C0 & _)].
+        rewrite E0. cbn. split; [exact R0|]. split; [apply Winv_note, Wi|left; exact C0].
+    + destruct t as [h pdu|da sa|].
+      * destruct (is_fdl_status_request h && (h_da h =? ts f1)).
+        -- destruct il.
+           ++ cbn. split; [|split; [apply Winv_note, Wi|right; reflexivity]].
+              apply Rep_set_st; [exact R1|exact Ec|]. cbn. split; [|exact Hcc].
+              destruct Wt as (_ & Hsa & _). exact Hsa.
+           ++ cbn. split; [exact R1|]. split; [apply Winv_note, Wi|right; cbn; rewrite ?Hs; reflexivity].
+        -- cbn. split; [exact R1|]. split; [apply Winv_note, Wi|right; cbn; rewrite ?Hs; reflexivity].
+      * cbn in Wt.
+        destruct (witness_ring_ok (f_ring f1) (ts f1) sa da (rep_ring _ _ R1)) as [r' [Er Rr]]; try lia.
+        rewrite Er. cbn. split; [apply Rep_set_ring; assumption|].
+        split; [apply Winv_note, Wi|right; cbn; rewrite ?Hs; reflexivity].
+      * cbn. split; [exact R1|]. split; [apply Winv_note, Wi|right; cbn; rewrite ?Hs; reflexivity].
+Qed.
+
+Lemma receive_all_telegrams_wp cb (I J : fdl * W -> Prop) f (w : W) :
+  (forall s t, I s -> wf_tel t -> wp (cb s t false) (fun x => I (fst x))) ->
+  (forall s t, I s -> wf_tel t -> wp (cb s t true) (fun x => J (fst x))) ->
+  (forall s, I s -> J s) ->
+  (forall f1 w1, J (f1, w1) -> Rep n f1 /\ Winv w1) ->
+  I (f, w) ->
+  wp (receive_all_telegrams A cb f w) PostRW.
+Proof.
+  intros Hf Ht HIJ HJ Hi. unfold receive_all_telegrams.
+  assert (Hb : all_bytes (w_rx w)) by (apply HIJ, HJ in Hi; destruct Hi as (_ & Hb & _); exact Hb).
+  eapply wp_bind.
+  - apply (receive_all_wp cb I J Hf Ht HIJ (receive_all_fuel (w_rx w)) (w_rx w) (f, w)); [unfold receive_all_fuel; lia|exact Hb|exact Hi].
+  - intros [[[f1 w1] rest] r] (Hj & Hrest). cbn [fst snd] in *. apply HJ in Hj. destruct Hj as (R1 & (_ & Wa1)).
+    cbn. split; [apply sync_pending_rep, R1|]. split; cbn; assumption.
+Qed.
+
+Lemma do_listen_token_wp f now (w : W) : Rep n f -> time_ok now -> w_tx w = None -> Winv w ->
+  kind_of (f_state f) = KListenToken ->
+  wp (do_listen_token A f now w) PostRW.
+Proof.
+  intros R Tn Hw Wi Hk. unfold do_listen_token, assert_entry. rewrite Hk. cbn [do_fn_entry state_kind_eqb bind].
+  eapply wp_bind; [apply handle_lost_token_wp; try assumption; left; exact Hk|].
+  intros [[f1 w1] done] (R1 & W1 & Hd). destruct done; [cbn; split; assumption|].
+  destruct (Hd eq_refl) as (S1 & ->). clear Hd.
+  destruct (f_state f) as [| |sr cc| | | | | | |] eqn:Hs; try discriminate Hk.
+  assert (Hs1 : f_state f1 = ListenToken sr cc) by (rewrite (sb_state _ _ S1); exact Hs).
+  rewrite Hs1. cbn [get_listen_token bind].
+  pose proof (rep_st _ _ R1) as St. rewrite Hs1 in St. cbn in St. destruct St as (Hsr & Hcc).
+  assert (Hon : f_conn f1 = ConnOnline) by (apply (Rep_online n); [exact R1|rewrite Hs1; discriminate]).
+  destruct sr as [src|].
+  - eapply wp_bind; [apply (wait_sync_wp n); assumption|].
+    intros [f2 wait] (R2 & S2). cbn [fst] in *.
+    destruct wait; [cbn; split; [exact R2|apply Winv_note, Wi]|].
+    pose proof (Rep_ts n f2 R2) as Hts.
+    eapply wp_bind.
+    + apply phy_send_data_wp; [exact Hw|exact Wi| |reflexivity|reflexivity].
+      unfold wf_header, is_addr7, wf_sap. cbn in *. lia.
+    + intros [w2 k] (W2 & Hk2). cbn [fst snd] in *.
+      assert (Hs2 : f_state f2 = ListenToken (Some src) cc) by (rewrite (sb_state _ _ S2); exact Hs1).
+      assert (Hon2 : f_conn f2 = ConnOnline) by (rewrite (sb_conn _ _ S2); exact Hon).
+      eapply wp_bind with (P := PostRW).
+      * destruct (ready_for_ring (f_ring f2)).
+        -- rewrite (trans_ok f2 _ _ (ActiveIdle None None 0)) by (rewrite Hs2; reflexivity).
+           cbn. split; [|apply Winv_note, Winv_note, W2].
+           apply Rep_set_st; [exact R2|exact Hon2|cbn; lia].
+        -- rewrite Hs2. cbn. split; [|apply Winv_note, W2].
+           apply Rep_set_st; [exact R2|exact Hon2|cbn; lia].
+      * intros [f3 w3] (R3 & W3). cbn [fst snd] in *.
+        eapply wp_bind; [apply (mark_tx_wp n); [exact R3|exact Tn|exact Hk2]|].
+        intros f4 (R4 & S4). cbn. split; assumption.
+  - apply (receive_all_telegrams_wp _ I_listen I_listen).
+    + intros s t Hi Wt. apply listen_token_telegram_wp; assumption.
+    + intros s t Hi Wt. apply listen_token_telegram_wp; assumption.
+    + tauto.
+    + intros f2 w2 (R2 & W2 & _). cbn in *. tauto.
+    + split; [exact R1|]. split; [exact Wi|]. right. cbn. rewrite Hs1. reflexivity.
+Qed.
+
+
+(* ------------------------------------------------------------------------------------------ *)
+(* handle_telegram, do_active_idle                                                              *)
+
+Definition idleish (f : fdl) : Prop :=
+  kind_of (f_state f) = KActiveIdle \/ kind_of (f_state f) = KListenToken.
+
+Lemma handle_telegram_wp now f (w : W) t il : time_ok now -> Rep n f -> Winv w -> idleish f -> wf_tel t ->
+  wp (handle_telegram A now f w t il)
+     (fun x => Rep n (fst x) /\ Winv (snd x) /\ (il = false -> idleish (fst x))).
+Proof.
+  intros Tn R Wi Hk Wt. unfold handle_telegram.
+  pose proof (Rep_ts n f R) as Hts.
+  destruct (f_state f) as [| |lsr lcc|sr nps cc| | | | | |] eqn:Hs;
+    try (destruct Hk as [Hk|Hk]; rewrite Hs in Hk; discriminate Hk).
+  - cbn. split; [exact R|]. split; [apply Winv_note, Wi|]. intros _. right. rewrite Hs. reflexivity.
+  - cbn [kind_of state_kind_eqb negb].
+    assert (Hon : f_conn f = ConnOnline) by (apply (Rep_online n); [exact R|rewrite Hs; discriminate]).
+    pose proof (rep_st _ _ R) as St. rewrite Hs in St. cbn in St. destruct St as (Hsr & Hcc).
+    assert (AI : forall sr' nps' cc', sr_ok sr' -> 0 <= cc' <= 1 -> Rep n (set_st f (ActiveIdle sr' nps' cc'))).
+    { intros. apply Rep_set_st; [exact R|exact Hon|cbn; tauto]. }
+    destruct t as [h pdu|da sa|].
+    + destruct (is_fdl_status_request h && (h_da h =? ts f) && il).
+      * cbn. split; [apply AI; [destruct Wt as (_ & Hsa & _); exact Hsa|exact Hcc]|].
+        split; [apply Winv_note, Wi|]. intros _. left. reflexivity.
+      * cbn. split; [exact R|]. split; [apply Winv_note, Wi|]. intros _. left. rewrite Hs. reflexivity.
+    + cbn [get_active_idle bind]. cbn in Wt.
+      destruct (sa =? ts f).
+      * unfold u8_add. destruct (Z.leb_spec (cc + 1) 255); [|lia]. cbn [bind].
+        destruct (cc + 1 =? active_idle_collision_tolerated) eqn:Ecc.
+        -- apply Z.eqb_eq in Ecc. unfold active_idle_collision_tolerated in Ecc.
+           cbn. split; [apply AI; [exact Hsr|lia]|]. split; [apply Winv_note, Wi|]. intros _. left. reflexivity.
+        -- rewrite (trans_ok _ _ _ (ListenToken None 0)) by reflexivity. cbn.
+           split; [|split; [apply Winv_note, Winv_note, Wi|intros _; right; reflexivity]].
+           apply (Rep_set_st n f (ListenToken None 0)); [exact R|exact Hon|cbn; lia].
+      * cbn zeta.
+        pose proof (AI sr nps 0 Hsr ltac:(lia)) as R0.
+        assert (Wit : wp (witness (f_ring f) sa da) (fun r => ring_ok r (ts f))).
+        { destruct (witness_ring_ok (f_ring f) (ts f) sa da (rep_ring _ _ R)) as [r' [Er Rr]]; try lia.
+          rewrite Er. exact Rr. }
+        assert (Use : forall f' w', Rep n f' -> f_conn f' = ConnOnline -> Winv w' -> kind_of (f_state f') = KActiveIdle ->
+                      il = true ->
+                      wp (trans A f' w' (fun s => transition_use_token s now None))
+                         (fun x => Rep n (fst x) /\ Winv (snd x) /\ (il = false -> idleish (fst x)))).
+        { intros f' w' R' C' W' K' Hil.
+          rewrite (trans_ok f' _ _ (UseToken now None false))
+            by (unfold transition_use_token, assert_kind; rewrite K'; reflexivity).
+          cbn. split; [apply Rep_set_st; [exact R'|exact C'|exact Tn]|]. split; [apply Winv_note, W'|].
+          intros C. rewrite Hil in C. discriminate C. }
+        destruct (negb (da =? ts (set_st f (ActiveIdle sr nps 0))) || negb il) eqn:Ew.
+        -- eapply wp_bind; [exact Wit|]. intros r Rr. cbn.
+           split; [apply Rep_set_ring; [exact R0|exact Rr]|]. split; [apply Winv_note, Wi|]. intros _. left. reflexivity.
+        -- assert (Hil : il = true) by (destruct il; [reflexivity|rewrite orb_true_r in Ew; discriminate Ew]).
+           destruct (sa =? r_ps (f_ring (set_st f (ActiveIdle sr nps 0)))).
+           ++ apply Use; [exact R0|exact Hon|apply Winv_note, Wi|reflexivity|exact Hil].
+           ++ destruct nps as [address|].
+              ** destruct (address =? sa).
+                 --- eapply wp_bind; [exact Wit|]. intros r Rr.
+                     apply Use; [apply Rep_set_ring; [exact R0|exact Rr]|exact Hon|apply Winv_note, Wi|reflexivity|exact Hil].
+                 --- cbn. split; [apply (AI sr (Some sa) 0 Hsr); lia|]. split; [apply Winv_note, Wi|]. intros _. left. reflexivity.
+              ** cbn. split; [apply (AI sr (Some sa) 0 Hsr); lia|]. split; [apply Winv_note, Wi|]. intros _. left. reflexivity.
+    + cbn. split; [exact R|]. split; [apply Winv_note, Wi|]. intros _. left. rewrite Hs. reflexivity.
+Qed.
+
+Definition I_ai (s : fdl * W) : Prop := Rep n (fst s) /\ Winv (snd s) /\ idleish (fst s).
+Definition J_rw (s : fdl * W) : Prop := Rep n (fst s) /\ Winv (snd s).
+
+Lemma active_idle_telegram_wp now s t il : time_ok now -> I_ai s -> wf_tel t ->
+  wp (active_idle_telegram A now s t il) (fun x => J_rw (fst x) /\ (il = false -> I_ai (fst x))).
+Proof.
+  intros Tn (R & Wi & Hk) Wt. destruct s as [f w]. cbn [fst snd] in *. unfold active_idle_telegram.
+  destruct (mark_rx_rep n f now R Tn) as (R1 & S1).
+  assert (Hk1 : idleish (mark_rx f now)) by (unfold idleish; rewrite (sb_state _ _ S1); exact Hk).
+  eapply wp_bind; [apply handle_telegram_wp; [exact Tn|exact R1|exact Wi|exact Hk1|exact Wt]|].
+  intros [f2 w2] (R2 & W2 & K2). cbn [fst snd] in *. cbn. unfold J_rw, I_ai. cbn. tauto.
+Qed.
+
+Lemma do_active_idle_wp f now (w : W) : Rep n f -> time_ok now -> w_tx w = None -> Winv w ->
+  kind_of (f_state f) = KActiveIdle ->
+  wp (do_active_idle A f now w) PostRW.
+Proof.
+  intros R Tn Hw Wi Hk. unfold do_active_idle, assert_entry. rewrite Hk. cbn [do_fn_entry state_kind_eqb bind].
+  eapply wp_bind; [apply handle_lost_token_wp; try assumption; right; exact Hk|].
+  intros [[f1 w1] done] (R1 & W1 & Hd). destruct done; [cbn; split; assumption|].
+  destruct (Hd eq_refl) as (S1 & ->). clear Hd.
+  destruct (f_state f) as [| | |sr nps cc| | | | | |] eqn:Hs; try discriminate Hk.
+  assert (Hs1 : f_state f1 = ActiveIdle sr nps cc) by (rewrite (sb_state _ _ S1); exact Hs).
+  rewrite Hs1. cbn [get_active_idle bind].
+  pose proof (rep_st _ _ R1) as St. rewrite Hs1 in St. cbn in St. destruct St as (Hsr & Hcc).
+  assert (Hon : f_conn f1 = ConnOnline) by (apply (Rep_online n); [exact R1|rewrite Hs1; discriminate]).
+  destruct sr as [src|].
+  - eapply wp_bind; [apply (wait_sync_wp n); assumption|].
+    intros [f2 wait] (R2 & S2). cbn [fst] in *.
+    destruct wait; [cbn; split; [exact R2|apply Winv_note, Wi]|].
+    pose proof (Rep_ts n f2 R2) as Hts.
+    eapply wp_bind.
+    + apply phy_send_data_wp; [exact Hw|exact Wi| |reflexivity|reflexivity].
+      unfold wf_header, is_addr7, wf_sap. cbn in *. lia.
+    + intros [w2 k] (W2 & Hk2). cbn [fst snd] in *.
+      eapply wp_bind.
+      * apply (mark_tx_wp n); [|exact Tn|exact Hk2].
+        apply Rep_set_st; [exact R2|rewrite (sb_conn _ _ S2); exact Hon|cbn; lia].
+      * intros f4 (R4 & S4). cbn. split; [exact R4|apply Winv_note, W2].
+  - apply (receive_all_telegrams_wp _ I_ai J_rw).
+    + intros s t Hi Wt. eapply wp_mono; [apply active_idle_telegram_wp; assumption|]. cbn beta. intros x (_ & Hx). apply Hx. reflexivity.
+    + intros s t Hi Wt. eapply wp_mono; [apply active_idle_telegram_wp; assumption|]. cbn beta. tauto.
+    + unfold I_ai, J_rw. tauto.
+    + intros f2 w2 (R2 & W2). cbn in *. tauto.
+    + split; [exact R1|]. split; [exact Wi|]. left. cbn. rewrite Hs1. reflexivity.
+Qed.
+
 End WithApps.
